@@ -59,9 +59,48 @@ def ground_obligations(ctx: Ctx) -> None:
                        detail=f"fields={sorted(fields)} missing={missing} optional-but-null-rejected={bad_none}")
 
 
+def unsanitised_extracts(ctx: Ctx) -> None:
+    """bounded: extracts as extract_categorized_keys_from_tree(tree) produces them WITHOUT sanitising (duplicates,
+    written order) must round-trip unchanged as well"""
+    import ahbicht.content_evaluation  # noqa: F401
+    from ahbicht.expressions.condition_expression_parser import (extract_categorized_keys_from_tree,
+                                                                 parse_condition_expression_to_tree)
+    from ahbicht.models.categorized_key_extract import CategorizedKeyExtractSchema
+    t0 = time.time()
+    exprs = ["[3] U [1] U [2]", "[2] O ([501] U [2])[901]", "[10] U [9] U [10]", "[902][1] X [901][1]", "[502] U [501] U [502]",
+             "[2000] U [3] U [2000]", "[3P] U [1P] U [3P]", "[UB2] U [UB1] U [UB2] U [1]", "[1]", "[501] U [1] U [901]",
+             "([4] O [3]) U ([2] O [1])[905][904]"]
+    schema = CategorizedKeyExtractSchema()
+    n, distinct, bad = 0, set(), []
+    for e in exprs:
+        tree = parse_condition_expression_to_tree(e)
+        for sanitize in (False, True):
+            x = extract_categorized_keys_from_tree(tree, sanitize=sanitize) if "P]" not in e or True else None
+            try:
+                x = extract_categorized_keys_from_tree(tree, sanitize=sanitize)
+            except NotImplementedError:
+                continue
+            n += 2
+            distinct.add((e, sanitize))
+            back = schema.load(schema.dump(x))
+            back2 = schema.loads(schema.dumps(x))
+            if back != x or back2 != x:
+                bad.append({"expression": e, "sanitize": sanitize, "original": repr(x), "loaded": repr(back)})
+    ctx.bounded("C19/unsanitised-key-extracts", n, len(distinct),
+                "extracts of expressions with repeated / unordered keys, sanitised and not, through load(dump(x)) and "
+                "loads(dumps(x)); distinct = distinct (expression, sanitize) pairs", [{"expression": exprs[1]}],
+                exhaustive=True, bound=f"{len(exprs)} expressions", seconds=time.time() - t0)
+    for b in bad[:3]:
+        ctx.violation("bounded/unsanitised-key-extract-roundtrip",
+                      f"CategorizedKeyExtract of {b['expression']!r} (sanitize={b['sanitize']}) does not round-trip: "
+                      f"{b['original']} came back as {b['loaded']}", witness=b, replayed=True,
+                      signature=f"cke|{b['expression']}|{b['sanitize']}")
+
+
 def run(ctx: Ctx) -> None:
     ctx.explanation = ("bounded round trips of every schema over small field domains and over objects the real code "
                        "produces; plus ground conformance obligations attrs class <-> schema")
     ctx.trust("A-MARSHMALLOW (field contracts)", "bounded: never counted as proved")
     ground_obligations(ctx)
     run_bounded(ctx, "C19")
+    unsanitised_extracts(ctx)
